@@ -76,9 +76,20 @@ pub fn base_info(case: &HistCase, facts: &Facts, foreign: &Option<Violation>) ->
             "timer" => "kind_timer",
             "gen" => "kind_gen",
             "probe" => "kind_probe",
+            "exec" => "kind_exec",
             _ => "kind_other",
         });
     }
+    if facts.tasks_scheduled > 0 {
+        info.classes.push("executor_task_scheduled");
+    }
+    if facts.tasks_scheduled_in_cb > 0 {
+        info.classes.push("executor_task_scheduled_from_callback");
+    }
+    if facts.task_wakes > 0 {
+        info.classes.push("executor_task_woken");
+    }
+    info.counters.push(("task_polls", facts.task_polls as u64));
     info.counters.push(("callbacks", facts.callbacks as u64));
     info.counters.push(("dispatches", facts.dispatches as u64));
     info.counters.push(("in_callback_ops", facts.in_cb_ops as u64));
